@@ -142,16 +142,81 @@ theorem push_plain (xs : List Val) (v : Val) (h : ∀ fs, v = .doc fs → dget "
 
 /-! ### `$addToSet`, `$pullAll` -/
 
+theorem pyIn_append (v : Val) (xs ys : List Val) : pyIn v (xs ++ ys) = (pyIn v xs || pyIn v ys) := by
+  simp [pyIn, List.any_append]
+
+/-- the helper's "not in the array and not among the values added so far" is "not in the array
+    as it is by now" -/
+theorem valuesToAdd_fold (xs : List Val) : ∀ (es acc : List Val),
+    xs ++ es.foldl (fun toAdd v => if !pyIn v xs && !pyIn v toAdd then toAdd ++ [v] else toAdd) acc =
+      es.foldl addOne (xs ++ acc)
+  | [], acc => rfl
+  | v :: es, acc => by
+    simp only [List.foldl_cons]
+    rw [valuesToAdd_fold xs es]
+    congr 1
+    unfold addOne
+    rw [pyIn_append]
+    cases pyIn v xs <;> cases pyIn v acc <;> simp
+
+theorem addEach_eq (xs es : List Val) : addEach xs es = addAll xs es := by
+  have := valuesToAdd_fold xs es []
+  simpa [addEach, valuesToAdd, addAll] using this
+
 theorem addToSet_each (xs es : List Val) :
-    addToSetValue (.arr xs) (.doc [("$each", .arr es)]) =
-      .ok (.arr (xs ++ es.filter (fun o => !pyIn o xs))) := by
-  simp [addToSetValue, dget, addEach]
+    addToSetValue (.arr xs) (.doc [("$each", .arr es)]) = .ok (.arr (addAll xs es)) := by
+  simp [addToSetValue, dget, addEach_eq]
 
 theorem addToSet_plain (xs : List Val) (v : Val) (hv : ∀ fs, v = .doc fs → dget "$each" fs = none) :
-    addToSetValue (.arr xs) v = .ok (.arr (if pyIn v xs then xs else xs ++ [v])) := by
+    addToSetValue (.arr xs) v = .ok (.arr (addOne xs v)) := by
+  unfold addOne
   cases v with
   | doc fs => simp [addToSetValue, hv fs rfl]
   | _ => simp [addToSetValue]
+
+/-- what `$each` adds: only listed values that were not there, none of them twice -/
+theorem addAll_once (xs : List Val) : ∀ (es : List Val) (acc : List Val),
+    (∀ o ∈ acc, pyIn o xs = false) → acc.Pairwise (fun a b => pyEq a b = false) →
+    ∃ added, es.foldl addOne (xs ++ acc) = xs ++ added ∧
+      (∀ o ∈ added, (o ∈ acc ∨ o ∈ es) ∧ pyIn o xs = false) ∧
+      added.Pairwise (fun a b => pyEq a b = false)
+  | [], acc, h1, h2 => ⟨acc, rfl, fun o ho => ⟨.inl ho, h1 o ho⟩, h2⟩
+  | v :: es, acc, h1, h2 => by
+    simp only [List.foldl_cons]
+    by_cases hin : pyIn v (xs ++ acc) = true
+    · have e : addOne (xs ++ acc) v = xs ++ acc := by simp [addOne, hin]
+      rw [e]
+      obtain ⟨added, h3, h4, h5⟩ := addAll_once xs es acc h1 h2
+      refine ⟨added, h3, fun o ho => ?_, h5⟩
+      obtain ⟨h6, h7⟩ := h4 o ho
+      exact ⟨h6.imp id (fun h => List.mem_cons_of_mem _ h), h7⟩
+    · have hin' : pyIn v (xs ++ acc) = false := by simpa using hin
+      have e : addOne (xs ++ acc) v = xs ++ (acc ++ [v]) := by
+        simp [addOne, hin', List.append_assoc]
+      rw [e]
+      rw [pyIn_append, Bool.or_eq_false_iff] at hin'
+      obtain ⟨added, h3, h4, h5⟩ := addAll_once xs es (acc ++ [v])
+        (by
+          intro o ho
+          rcases List.mem_append.mp ho with ho | ho
+          · exact h1 o ho
+          · simp only [List.mem_singleton] at ho; subst ho; exact hin'.1)
+        (by
+          rw [List.pairwise_append]
+          refine ⟨h2, by simp, ?_⟩
+          intro a ha b hb
+          simp only [List.mem_singleton] at hb; subst hb
+          have := hin'.2
+          simp only [pyIn, List.any_eq_false] at this
+          simpa using this a ha)
+      refine ⟨added, h3, fun o ho => ?_, h5⟩
+      obtain ⟨h6, h7⟩ := h4 o ho
+      refine ⟨?_, h7⟩
+      rcases h6 with h6 | h6
+      · rcases List.mem_append.mp h6 with h6 | h6
+        · exact .inl h6
+        · simp only [List.mem_singleton] at h6; subst h6; exact .inr (by simp)
+      · exact .inr (List.mem_cons_of_mem _ h6)
 
 end MongoModel.Proofs.C02Lemmas
 
@@ -323,4 +388,133 @@ theorem set_pad (now v : Val) (xs : List Val) (i : Nat) :
     runUpdater .set now (.arr xs) (toString i) v = .ok (.arr (padSet xs i v)) := by
   simp only [runUpdater, listIndex, pyInt_toString, bind, Except.bind, pure, Except.pure]
   simp [padSet, listSetPad]
+
+/-! ### `$min/$max` on an array element -/
+
+theorem max_arr_int (now : Val) (xs : List Val) (i : Nat) (n k : Int) (h : xs[i]? = some (.int n)) :
+    runUpdater .max now (.arr xs) (toString i) (.int k) =
+      .ok (.arr (xs.set i (.int (if k > n then k else n)))) := by
+  simp only [runUpdater, listIndex, pyInt_toString, bind, Except.bind, pure, Except.pure]
+  simp only [Int.ofNat_eq_natCast, Int.toNat_natCast, h, pyMax, pyNativeCmp, Val.num?, Num.lt, Num.eq]
+  by_cases h1 : k < n
+  · have : ¬ k > n := by omega
+    simp [h1, this]
+  · by_cases h2 : k = n
+    · subst h2; simp
+    · have : k > n := by omega
+      simp [h1, h2, this]
+
+theorem min_arr_int (now : Val) (xs : List Val) (i : Nat) (n k : Int) (h : xs[i]? = some (.int n)) :
+    runUpdater .min now (.arr xs) (toString i) (.int k) =
+      .ok (.arr (xs.set i (.int (if k < n then k else n)))) := by
+  simp only [runUpdater, listIndex, pyInt_toString, bind, Except.bind, pure, Except.pure]
+  simp only [Int.ofNat_eq_natCast, Int.toNat_natCast, h, pyMin, pyNativeCmp, Val.num?, Num.lt, Num.eq]
+  by_cases h1 : k < n
+  · simp [h1]
+  · by_cases h2 : k = n
+    · subst h2; simp
+    · simp [h1, h2]
+
+theorem minmax_arr_pad (now v : Val) (xs : List Val) (i : Nat) (h : xs[i]? = none) :
+    runUpdater .max now (.arr xs) (toString i) v = .ok (.arr (padSet xs i v)) ∧
+    runUpdater .min now (.arr xs) (toString i) v = .ok (.arr (padSet xs i v)) := by
+  have hl : ¬ i < xs.length := by
+    intro hl
+    rw [List.getElem?_eq_getElem hl] at h; cases h
+  constructor <;>
+  · simp only [runUpdater, listIndex, pyInt_toString, bind, Except.bind, pure, Except.pure]
+    simp [h, padSet, listSetPad, hl]
+
+/-! ### `$pull` along a path: only the array the path leads to is edited -/
+
+theorem dset_self {k : String} {v : Val} : ∀ {fs : Fields}, dget k fs = some v → dset k v fs = fs
+  | [], h => by simp [dget] at h
+  | (k', v') :: r, h => by
+    simp only [dget] at h
+    simp only [dset]
+    split
+    · rename_i e; subst e; simp at h; subst h; rfl
+    · rename_i ne; simp only [ne, if_false] at h; rw [dset_self h]
+
+theorem pullWalk_spec (value : Val) : ∀ (parts : List String) (d d' : Val),
+    pullWalk value parts d = .ok d' →
+    (∀ xs, getPath parts d = some (.arr xs) →
+      ∃ ys, pullList value xs = .ok ys ∧ getPath parts d' = some (.arr ys)) ∧
+    ((∀ xs, getPath parts d ≠ some (.arr xs)) → d' = d)
+  | [], d, d', h => by
+    cases d with
+    | arr xs =>
+      simp only [pullWalk, bind, Except.bind, pure, Except.pure] at h
+      cases hp : pullList value xs with
+      | error e => rw [hp] at h; cases h
+      | ok ys =>
+        rw [hp] at h; cases h
+        refine ⟨fun xs' hx => ?_, fun hn => absurd rfl (hn xs)⟩
+        simp only [getPath, Option.some.injEq, Val.arr.injEq] at hx; subst hx
+        exact ⟨ys, hp, rfl⟩
+    | _ =>
+      simp only [pullWalk] at h; cases h
+      exact ⟨fun xs hx => by simp [getPath] at hx, fun _ => rfl⟩
+  | part :: rest, d, d', h => by
+    cases d with
+    | doc fs =>
+      simp only [pullWalk] at h
+      cases hg : dget part fs with
+      | none =>
+        simp only [hg] at h; cases h
+        exact ⟨fun xs hx => by simp [getPath, hg] at hx, fun _ => rfl⟩
+      | some sub =>
+        simp only [hg, bind, Except.bind, pure, Except.pure] at h
+        cases hs : pullWalk value rest sub with
+        | error e => rw [hs] at h; cases h
+        | ok sub' =>
+          rw [hs] at h; cases h
+          obtain ⟨i1, i2⟩ := pullWalk_spec value rest sub sub' hs
+          have hgp : getPath (part :: rest) (.doc fs) = getPath rest sub := by
+            simp [getPath, hg]
+          refine ⟨fun xs hx => ?_, fun hn => ?_⟩
+          · rw [hgp] at hx
+            obtain ⟨ys, h1, h2⟩ := i1 xs hx
+            exact ⟨ys, h1, by simp [getPath, dget_dset_same, h2]⟩
+          · rw [hgp] at hn
+            rw [i2 hn, dset_self hg]
+    | arr xs =>
+      simp only [pullWalk] at h
+      cases hi : pyInt? part with
+      | none =>
+        simp only [hi] at h; cases h
+        exact ⟨fun xs' hx => by simp [getPath, hi] at hx, fun _ => rfl⟩
+      | some i =>
+        simp only [hi] at h
+        by_cases hneg : i < 0
+        · simp [hneg, unmodelled] at h
+        · simp only [hneg, if_false] at h
+          cases hx : xs[i.toNat]? with
+          | none =>
+            simp only [hx] at h; cases h
+            exact ⟨fun xs' hx' => by simp [getPath, hi, hneg, hx] at hx', fun _ => rfl⟩
+          | some sub =>
+            simp only [hx, bind, Except.bind, pure, Except.pure] at h
+            cases hs : pullWalk value rest sub with
+            | error e => rw [hs] at h; cases h
+            | ok sub' =>
+              rw [hs] at h; cases h
+              obtain ⟨i1, i2⟩ := pullWalk_spec value rest sub sub' hs
+              have hlt : i.toNat < xs.length := by
+                rcases List.getElem?_eq_some_iff.mp hx with ⟨hl, _⟩; exact hl
+              have hgp : getPath (part :: rest) (.arr xs) = getPath rest sub := by
+                simp [getPath, hi, hneg, hx]
+              refine ⟨fun xs' hx' => ?_, fun hn => ?_⟩
+              · rw [hgp] at hx'
+                obtain ⟨ys, h1, h2⟩ := i1 xs' hx'
+                exact ⟨ys, h1, by simp [getPath, hi, hneg, List.getElem?_set, hlt, h2]⟩
+              · rw [hgp] at hn
+                rw [i2 hn]
+                congr 1
+                rcases List.getElem?_eq_some_iff.mp hx with ⟨hl, he⟩
+                rw [← he]; exact List.set_getElem_self hl
+    | _ =>
+      simp only [pullWalk] at h; cases h
+      exact ⟨fun xs hx => by simp [getPath] at hx, fun _ => rfl⟩
+
 end MongoModel.Proofs.C02Lemmas
